@@ -1,8 +1,14 @@
 #define _GNU_SOURCE
 #include "vx.h"
 #ifdef VX_COV
+#include <stdio.h>
+#include <stdlib.h>
+#include <unistd.h>
 extern int __llvm_profile_write_file(void);
-#define COV_DUMP() ((void)__llvm_profile_write_file())
+extern void __llvm_profile_set_filename(const char *);
+/* the profile file name is fixed at process start: forked workers must pick their own */
+static void cov_dump(void) { static char b[400]; const char *d = getenv("VX_COV_DIR"); snprintf(b, sizeof b, "%s/w%d.profraw", d ? d : "/tmp", (int)getpid()); __llvm_profile_set_filename(b); __llvm_profile_write_file(); }
+#define COV_DUMP() cov_dump()
 #else
 #define COV_DUMP() ((void)0)
 #endif
